@@ -151,7 +151,7 @@ def cases_for(rng, tier):
             t_['Hotspot'] = {'h1': {'temperature': 'coolant',
                                     'subfactors': 'fftf_clad_mw'}}
         single('rod2-convapprox-2tp', bundle_type(2), 2,
-               flow=None, setup={'conv_approx': True,
+               setup={'conv_approx': True,
                                  'conv_approx_dz_cutoff': 0.01})
     return out
 
